@@ -103,6 +103,10 @@ def _fill_chart_slide(prs, kind, BubbleChartData, CategoryChartData, XL_CHART_TY
     ct = XL_CHART_TYPE.COLUMN_CLUSTERED if kind == "bar" else XL_CHART_TYPE.LINE_MARKERS
     gf = s.shapes.add_chart(ct, Inches(1), Inches(1), Inches(6), Inches(4), cd)
     ch = gf.chart
+    if kind == "line":
+        # the LAST point of the first series is formatted already (its c:dPt comes first in the document): formatting an earlier point
+        # later leaves the c:dPt elements out of index order, as any script that colours points from the last to the first does
+        ch.plots[0].series[0].points[2].marker.size = 11
     if kind == "bar":
         ch.has_legend = True
         ch.plots[0].has_data_labels = True
